@@ -53,7 +53,7 @@ func (bh *Header) DecodeBinary(r io.Reader) error {
 		return errors.New("sam: invalid text length")
 	}
 	text := make([]byte, lText)
-	n, err := r.Read(text)
+	n, err := io.ReadFull(r, text)
 	if err != nil {
 		return err
 	}
@@ -104,7 +104,7 @@ func readRefRecords(r io.Reader, n int32) ([]*Reference, error) {
 			return nil, errors.New("sam: invalid name length")
 		}
 		name := make([]byte, lName)
-		n, err := r.Read(name)
+		n, err := io.ReadFull(r, name)
 		if err != nil {
 			return nil, err
 		}
